@@ -786,3 +786,47 @@ package genql
 //@     | called(ParseFloat) && result == any(callresult(ParseFloat, 0))
 //@   ensures text[C02]: err == nil && callresult(BuildLiteral, 0) == sqlparser.StrVal ==> result == any(NeutalString(callresult(BuildLiteral, 1)))
 //@   at-call ParseFloat assert whole-text-as-a-double[C02]: arg0 == callresult(BuildLiteral, 1) && arg1 == 64
+
+// ---------------------------------------------------------------------------
+// C04: joins. The hash path answers ON only when ON is a conjunction of equalities; the nested-loop path emits a pair
+// exactly for the partners that satisfy ON and keeps an unmatched row of an outer join once.
+
+//@ func hashJoinAnalyze
+//@   ensures disjunction[C04]: typeis(expr, *sqlparser.OrExpr) ==> !result
+//@   ensures comparison[C04]: typeis(expr, *sqlparser.ComparisonExpr) ==> result == (expr.(*sqlparser.ComparisonExpr).Operator == sqlparser.EqualOp)
+//@   ensures conjunction[C04]: typeis(expr, *sqlparser.AndExpr) ==> result == (callresult(hashJoinAnalyze, 0, 1) && (!callresult(hashJoinAnalyze, 0, 1) || callresult(hashJoinAnalyze, 0, 2)))
+//@   ensures anything-else[C04]: !typeis(expr, *sqlparser.OrExpr) && !typeis(expr, *sqlparser.ComparisonExpr) && !typeis(expr, *sqlparser.AndExpr) ==> !result
+//@   modifies nothing
+
+//@ func (*Join).Exec
+//@   at-call (*Join).HashJoin assert hash-path-only-for-a-conjunction-of-equalities[C04]: called(hashJoinAnalyze) && callresult(hashJoinAnalyze, 0)
+
+//@ func (*Join).JoinMatchFunc
+//@   loop 0 invariant nothing-emitted-before-a-partner-is-found[C04]: !b ==> len(slice) == 0
+//@   at-call append@loop2 assert a-pair-is-emitted-only-when-on-holds[C04]: rsValue
+//@   at-call append@loop3 assert an-unmatched-row-is-kept-only-when-nothing-was-paired[C04]: len(target) == rangeindex + 1 && has(appended.(Map), j.rightIdent) && appended.(Map)[j.rightIdent] == nil
+//@   loop 3 invariant only-the-unmatched-rows[C04]: len(slice) == rangeindex + 1
+//@   ensures inner-without-partner[C04]: err == nil && !result0 ==> len(result1) == 0
+
+//@ func (*Join).HashJoinMatchFunc
+//@   ensures inner-join-without-partners[C04]: err == nil && !old(has(r.Rows, hash)) && called(IsInner) && callresult(IsInner, 0) ==> !result0 && len(result1) == 0
+//@   at-call append@loop1 assert partners-come-from-the-bucket-of-the-same-key[C04]: has(r.Rows, hash) && len(right) > 0
+//@   at-call append@loop0 assert a-row-without-partners-is-kept-with-null[C04]: len(right) == 0 && has(appended.(Map), j.rightIdent) && appended.(Map)[j.rightIdent] == nil
+
+//@ func (*Join).Join
+//@   at-call ToCatalog assert each-side-is-keyed-by-its-own-alias[C04]: (arg0 == j.left && arg1 == j.leftIdent && arg2 == j.rightIdent) || (arg0 == j.right && arg1 == j.rightIdent && arg2 == j.leftIdent)
+//@ func (*Join).HashJoin
+//@   at-call ToCatalog assert each-side-is-keyed-by-its-own-alias[C04]: (arg0 == j.left && arg1 == j.leftIdent && arg2 == j.rightIdent) || (arg0 == j.right && arg1 == j.rightIdent && arg2 == j.leftIdent)
+//@ func (*Join).StraightJoin
+//@   at-call ToCatalog assert each-side-is-keyed-by-its-own-alias[C04]: (arg0 == j.left && arg1 == j.leftIdent && arg2 == j.rightIdent) || (arg0 == j.right && arg1 == j.rightIdent && arg2 == j.leftIdent)
+
+//@ func extractJoinColumns
+//@   ensures one-column-per-comparison[C04]: err == nil && typeis(expr, *sqlparser.ComparisonExpr) ==> len(result) == 1
+//@   ensures a-conjunction-lists-its-left-columns-then-its-right-columns[C04]: err == nil && typeis(expr, *sqlparser.AndExpr) ==> len(result) == len(callresult(extractJoinColumns, 0, 1)) + len(callresult(extractJoinColumns, 0, 2))
+
+//@ func ToCatalog
+//@   loop 1 ascending-range rows[C04]: rows
+//@   loop 1 exhaustive every-row-is-catalogued[C04]: rows
+//@   loop 2 ascending-range key-columns-in-the-order-of-on[C04]: columns
+//@   at-call ExecReader assert the-key-is-read-from-this-row-at-this-column[C04]: arg0 == row && arg1 == column
+//@   at-call append:hashedTable.Rows[hash] assert the-row-joins-the-bucket-of-its-key[C04]: appended == &r
